@@ -37,6 +37,12 @@ func c20Pool() []replLine {
 		// output produced by a statement that then fails belongs to that line's response
 		{"{ " + Print(`"in block"`) + " " + Break() + " }", true, "runtime"}, {If(True(), "{ "+Print("1")+" "+Ret("")+" }"), true, "runtime"}, {While(True(), "{ "+Print(`"in loop"`)+" "+Ret("2")+" }"), true, "runtime"},
 		{"7; " + If(True(), "{ 8; "+Continue()+" }"), true, "runtime"}, {For(Var("i", "0"), "i < 2", "i = i + 1", "{ "+Print("i")+" }") + " " + Print("1 / 0"), true, "runtime"}, {B["len"] + " = nil; " + BI("len", "[1]") + ";", true, "runtime"},
+		// a failing statement inside a loop that has no condition and no increment ends the line; fractional remainders are values
+		{For(";", "", "", "{ "+Print("nope")+" }"), true, "runtime"}, {For(Var("i", "0"), "", "", "{ "+Print("i")+" nil.k; }"), true, "runtime"}, {Fun("lp", "", " "+For(";", "", "", "{ 1 / 0; }")+" ") + " lp();", true, "runtime"},
+		{For(";", "", "", "{ "+Print(`"once"`)+" "+Break()+" }"), true, "print"}, {While(True(), "{ [1][3]; }"), true, "runtime"}, {For(";", "", "i = 1", "{ "+Print("1")+" }"), true, "runtime"},
+		{"7 % 0.5;", true, "echo"}, {Print("2.75 % 0.5"), true, "print"}, {"1 % 0.1;", true, "echo"}, {"1 / 0.0000000001;", true, "echo"}, {"0.5 % 7;", true, "echo"}, {"5 % 0;", true, "runtime"},
+		// echo of containers that hold texts under several names
+		{`({b: "t", a: 1, c: "u", d: [1, "v"], e: nil});`, true, "echo"}, {`[{y: "p", x: "q", w: "r"}, "s"];`, true, "echo"}, {Var("rec", `{nm: "A", ad: "B", ag: 3, tel: "C"}`) + " rec;", true, "echo"},
 		{Var("x", "1"), true, "declaration"}, {"x;", false, "dependent"}, {Print("x"), false, "dependent"},
 		{"", true, "empty"}, {"   ", true, "empty"}, {"// comment only", true, "empty"},
 		{Print("1") + " " + Print("2"), true, "print"}, {Var("y", "2") + " " + Print("y * 2"), true, "print"}, {"1; 2;", true, "echo"},
@@ -156,6 +162,14 @@ func c20Judge(c *Ctx, cs *Case) {
 		pool[l.text] = l
 	}
 	resp, o := c20Session(c, lines, finalNL)
+	if o.TimedOut && o.CPUSec >= 10 {
+		// not a wall-clock verdict: the session's lines need a few thousand evaluation steps (milliseconds of CPU);
+		// a process that has burned ten CPU-seconds on them is computing, not waiting or starved
+		c.Violate(Violation{Why: fmt.Sprintf("the session never reached end of input: the process consumed %.0f CPU-seconds on %d short lines and was still running (a line never returned, so no later line was answered)", o.CPUSec, len(lines)), Observed: trunc(o.Merged, 500), Signature: "no-termination:cpu-budget"})
+		c.noTermination++
+		c.Count("sessions_stopped_on_cpu_budget", 1)
+		return
+	}
 	if o.TimedOut {
 		c.Inconclusive("CLI watchdog")
 		return
